@@ -308,6 +308,49 @@ func runC11(r *ev.Recorder) {
 		}
 	})
 
+	// LitFunc with a stateful function: called exactly once, and the value rendered is the one
+	// that call returned
+	for ti, vals := range [][]any{{1, 2, 3}, {int8(5), "s", 2.5}, {uint8(200), uint8(201)}, {true, false}, {1.5, int64(7)}} {
+		n := 0
+		fn := func() interface{} { v := vals[n%len(vals)]; n++; return v }
+		st := jen.LitFunc(fn)
+		after := n
+		got := jh.Raw(st)
+		jh.Raw(st)
+		want := jh.Raw(jen.Lit(vals[0]))
+		r.Eval(1)
+		r.Distinct(fmt.Sprintf("stateful-litfunc-%d", ti))
+		if after != 1 || n != 1 || got.Key() != want.Key() {
+			r.Violate(ev.Violation{Signature: "c11:litfunc-stateful", What: fmt.Sprintf("LitFunc with a function returning %v in turn: called %d times while building, %d times in all, renders %q, want %q", vals, after, n, got, want),
+				Case: ev.JSON(c11Case{Type: "litfunc-stateful"}), Detail: "LitFunc must call its function exactly once, when called"})
+		}
+	}
+
+	// literals appended to clones of one prefix statement, all built before any is rendered
+	for pi, mk := range []func() *jen.Statement{
+		func() *jen.Statement { return jen.Id("x").Index(jen.Lit(0)).Op("=") },
+		func() *jen.Statement { return jen.Id("t").Dot("f").Op("=") },
+		func() *jen.Statement { return jen.Var().Id("v").Float64().Op("=").Lit(1.0).Op("+") },
+		func() *jen.Statement { return jen.Return() },
+	} {
+		vals := []any{int8(-128), uint8(255), int64(math.MinInt64), 1.5, float32(0.1), true, 7, uint64(math.MaxUint64), complex64(1 + 2i), 1e21, -0.5, uintptr(9)}
+		prefix := mk()
+		var sts []*jen.Statement
+		for _, v := range vals {
+			sts = append(sts, prefix.Clone().Lit(v))
+		}
+		head := jh.Raw(mk()).Out
+		for i, st := range sts {
+			got, want := jh.Raw(st), head+" "+jh.Raw(jen.Lit(vals[i])).Out
+			r.Eval(1)
+			r.Distinct(fmt.Sprintf("clone-prefix-%d-%d", pi, i))
+			if !got.OK() || got.Out != want {
+				r.Violate(ev.Violation{Signature: "c11:literal-on-clone", What: fmt.Sprintf("prefix %q cloned %d times, literal %T(%v) appended to clone %d: renders %q, want %q", head, len(vals), vals[i], vals[i], i, got, want),
+					Case: ev.JSON(c11Case{Type: "litfunc-stateful"}), Detail: "a literal appended to a clone was replaced by a sibling clone's literal"})
+			}
+		}
+	}
+
 	if r.Tier == ev.Thorough {
 		done := explore.Range(1<<32, 0, r.Expired, func(_ int, i int64) {
 			b := uint32(i)
@@ -344,6 +387,12 @@ func replayC11(raw json.RawMessage) (bool, string) {
 	var c c11Case
 	if err := json.Unmarshal(raw, &c); err != nil {
 		return true, "bad case"
+	}
+	if c.Type == "litfunc-stateful" {
+		n := 0
+		st := jen.LitFunc(func() interface{} { n++; return n })
+		got := jh.Raw(st)
+		return n == 1 && got.Out == "1", fmt.Sprintf("LitFunc(counter): called %d times, renders %q", n, got)
 	}
 	v := c.value()
 	o := c11Render(v, false)
